@@ -2581,6 +2581,10 @@ for _k, _v in py2lean_landscape.FILES.items():
 # registers itself like the mGH engine (py2lean_ghentry.register)
 from . import py2lean_ghentry  # noqa: E402,F401
 
+# the plot engine (plot_diagrams, bottleneck_matching, wasserstein_matching, the 2-D landscape plots; key "plot") registers itself
+# the same way (py2lean_plot.register)
+from . import py2lean_plot  # noqa: E402,F401
+
 
 if __name__ == "__main__":
     import sys
